@@ -644,6 +644,13 @@ func init() {
 			{ID: "C11.R2", Doc: "reuse-or-replace: TypeOf(seg)==TypeK guard, GetK(seg) reuse, NewK() stored at seg; K is the kind the next sigil needs", Run: func(c *Ctx) {}},
 			{ID: "C11.R3", Doc: "list padding: index>=count => Add(nil) x (index-count) then exactly one Add; else Replace(index, …)", Run: func(c *Ctx) {}},
 			{ID: "C11.R4", Doc: "frame: exactly the prescribed mutating calls; UnsetTF descents do not mutate; leaves hit the addressed slot; recursion on the child itself", Run: func(c *Ctx) {}},
+			{ID: "C11.R7", Doc: "the primitives the writers are built on behave as the model says: list Add/Replace on the folded spine (= C05.R5), object Set (= C06.R1)", Run: func(c *Ctx) {
+				n := runAs(c, "C11.R7", c05Sequence, func(o *Obligation) bool {
+					return strings.Contains(o.Construct, "(*list).Add/") || strings.Contains(o.Construct, "(*list).Replace/")
+				})
+				n += runAs(c, "C11.R7", c06Set, nil)
+				c.R.Floor("C11.R7", n, 4)
+			}},
 			{ID: "C11.R6", Doc: "frame: no two containers share storage, so a write through one path is invisible through every other (= OWN, C09.R2)", Run: func(c *Ctx) { c.R.Floor("C11.R6", ownRule(c, "C11.R6"), 3) }},
 			{ID: "C11.R5", Doc: "fluent return of SetTF/UnsetTF (registered ego on every path)", Run: c11Fluent},
 		},
